@@ -23,7 +23,7 @@ PLANS = {
             "thorough": [seq("seq-mixed", 3000000), seq("seq-inval", 1000000), seq("seq-expiry", 1000000), seq("seq-long", 60000), seq("thr-mixed", 900000), seq("burst", 20000), seq("seq-wide", 60000), seq("thr-warm", 600000), seq("thr-inval", 300000), seq("seq-huge", 600000)]},
     "C11": {"quick": [seq("seq-mixed", 240000), seq("seq-inval", 100000), seq("seq-callback", 60000), seq("seq-long", 3000), seq("thr-mixed", 60000), seq("seq-wide", 3000), seq("thr-callback", 30000), seq("thr-warm", 40000), seq("thr-inval", 20000), seq("burst", 1500)],
             "thorough": [seq("seq-mixed", 3000000), seq("seq-inval", 1000000), seq("seq-callback", 600000), seq("seq-long", 60000), seq("thr-mixed", 900000), seq("burst", 20000), seq("seq-wide", 40000), seq("thr-callback", 400000), seq("thr-warm", 600000), seq("thr-inval", 300000)]},
-    "C12": {"quick": [seq("seq-policy", 400000), seq("seq-mixed", 100000), seq("thr-warm", 40000), seq("thr-mixed", 60000), seq("thr-expiry", 30000), seq("thr-iter-mixed", 30000)],
+    "C12": {"quick": [seq("seq-policy", 400000), seq("seq-mixed", 100000), seq("thr-warm", 80000), seq("thr-mixed", 60000), seq("thr-expiry", 30000), seq("thr-iter-mixed", 30000)],
             "thorough": [seq("seq-policy", 6000000), seq("seq-mixed", 1500000), seq("seq-long", 30000), seq("thr-warm", 600000), seq("thr-mixed", 600000), seq("thr-expiry", 300000), seq("thr-iter-mixed", 300000)]},
     "C13": {"quick": [seq("seq-policy", 400000)],
             "thorough": [seq("seq-policy", 6000000)]},
